@@ -25,7 +25,7 @@ def case_strategy():
     @st.composite
     def s(draw):
         rc = draw(geo.geometry(max_nx=5, max_ny=5, max_nz=5, shipped=True, ops=True, with_surfaces=True,
-                               with_wells=False, header=True, max_shipped_cols=30))
+                               with_wells=False, header=True, max_shipped_cols=30, relayer=True))
         rc.get('header', {}).pop('unit', None)
         then = draw(st.sampled_from([None, None, 'translate', 'translate', 'rotate', 'same']))
         if then == 'translate':
